@@ -365,6 +365,13 @@ class SymArray:
             v = wrap_array(v, self.dtype) if isinstance(v, _np.ndarray) else wrap_elem(v, self.dtype)
         if self.dtype.kind == "S":
             idx = idx if isinstance(idx, tuple) else (idx,)
+        elif isinstance(v, _np.ndarray) and v.ndim > 0:
+            try:
+                single = not isinstance(self.vals[idx], _np.ndarray)
+            except Exception:
+                single = False
+            if single:      # an object array would store the array as one element; NumPy (>= 2.4) rejects it
+                raise ValueError("setting an array element with a sequence.")
         self.vals[idx] = v
 
     def reshape(self, *a, **k):
@@ -641,6 +648,8 @@ def _sym_scatter(arr, idx, value):
     if _is_sym_int_index(idx) and arr.ndim == 1:
         ids = [idx] if isinstance(idx, SV) else list(idx.vals.ravel())
         vs = value.vals if isinstance(value, SymArray) else value
+        if isinstance(idx, SV) and isinstance(vs, _np.ndarray) and vs.ndim > 0:     # as NumPy (>= 2.4): one element cannot take an array
+            raise ValueError("setting an array element with a sequence.")
         if isinstance(vs, _np.ndarray):
             vs = list(_np.broadcast_to(vs if vs.dtype == object else obj(vs), (len(ids),)).ravel()) if vs.size != len(ids) or True else vs
         elif isinstance(vs, (list, tuple)):
